@@ -45,3 +45,56 @@ Print Assumptions is_frame_range_iff_parser.
 Example odd_inputs :
   total (new_fileseq [255; 10; 35; 0; 37; 100]%nat Hash4) /\ is_frame_range (s2b "1-5x0") = false /\ is_frame_range (s2b " 1 - 5 #") = true.
 Proof. vm_compute. repeat split. Qed.
+
+From GFS Require Import Checked CheckedProofs.
+
+(** ---- the crash sites of the Go code, with their guards: the model's primitives are total
+    (a slice out of bounds is just an empty list there), so the totality theorems above say nothing
+    about Go's index-out-of-range and nil-dereference panics.  Model/Checked.v restates the
+    functions that contain such a site with CHECKED primitives (Panic exactly when Go panics) and
+    the guard the Go code has; the theorems: with the guard the checked function is the unchecked one
+    (so it never panics), without the guard it does panic on a concrete input. ---- *)
+(** with its guard, each of the seven sites returns exactly what the total model function returns *)
+Theorem every_anchored_crash_site_is_guarded :
+  (* a1  sequence.go:777-781 *)
+  (forall o tmpl it, classify_chk o tmpl it = Ok (classify o tmpl it)) /\
+  (* a2  sequence.go:907-916 *)
+  (forall base padding, single_frame_pad_chk base padding = Ok (single_frame_pad base padding)) /\
+  (* b   fileseq.go:189-192, and every other index of the loop *)
+  (forall i frames, f2r_better_chk i frames = Ok (f2r_better i frames)) /\
+  (forall frames sorted z,
+     frames_to_frame_range_chk frames sorted z = frames_to_frame_range frames sorted z /\
+     exists s, frames_to_frame_range_chk frames sorted z = Ok s) /\
+  (* c   the walk over Split() with its nil test *)
+  (forall A (use : fileseq -> A) q, split_walk_chk use q = Ok (split_uses use q)) /\
+  (* d   sequence.go:467-472 and 82-85 *)
+  (forall style,
+     (forall q, set_padding_style_chk q style = Ok (set_padding_style q style)) /\
+     (forall sequence, new_fileseq_pad_chk sequence style = new_fileseq sequence (style_of_int style))) /\
+  (* e   cmd/seqinfo/seqinfo.go:270-275, 280-285 *)
+  (forall path st,
+     reparse_frame_chk path st = reparse_frame path st /\ exists v, reparse_frame_chk path st = Ok v).
+Proof. exact anchored_panic_sites_are_guarded. Qed.
+Print Assumptions every_anchored_crash_site_is_guarded.
+
+(** without its guard, each site panics on some input: the statements above are not vacuous *)
+Theorem every_guard_is_needed :
+  (exists o tmpl it, classify_unguarded o tmpl it = Panic Site_template_slice) /\
+  (exists base padding, single_frame_pad_unguarded base padding = Panic Site_single_frame_index) /\
+  (exists base padding, single_frame_pad_unguarded2 base padding = Panic Site_single_frame_index) /\
+  (exists i frames, f2r_better_unguarded i frames = Panic Site_f2r_lookahead) /\
+  (exists q, split_walk_unguarded q_frange q = Panic Site_split_nil) /\
+  (exists q style, set_padding_style_unguarded q style = Panic Site_padder_nil) /\
+  (exists sequence style, new_fileseq_pad_unguarded sequence style = Panic Site_padder_nil) /\
+  (exists path st, reparse_frame_unguarded path st = Panic Site_seqinfo_nil).
+Proof. exact anchored_guards_are_needed. Qed.
+Print Assumptions every_guard_is_needed.
+
+(** the public entry points built from the checked sites are the model functions the other theorems speak about *)
+Theorem checked_entry_points_are_the_model :
+  (forall items opts tmpl, find_items_chk items opts tmpl = find_items items opts tmpl) /\
+  (forall frames sorted z, frames_to_frame_range_chk frames sorted z = frames_to_frame_range frames sorted z) /\
+  (forall pl pattern o refmt, seqinfo_run_chk pl pattern o refmt = seqinfo_run pl pattern o refmt).
+Proof. exact checked_entry_points_agree. Qed.
+Print Assumptions checked_entry_points_are_the_model.
+
